@@ -177,7 +177,7 @@ func runCompute(in *input) (cs string, fail string, kind string) {
 	if got >= 0 {
 		res = fmt.Sprintf("(Some %d)", got)
 	}
-	cs = fmt.Sprintf("FcCompute %s %s %d %d %s", treeCoq(in), vh.List(knownCoq), in.Lfbr, in.R, res)
+	cs = fmt.Sprintf("(FcCompute %s %s %d %d %s)%%nat", treeCoq(in), vh.List(knownCoq), in.Lfbr, in.R, res)
 
 	// reference: latest round in (lfbr, r] with notarized blocks, scanning down while round objects exist
 	var S []int
@@ -262,6 +262,7 @@ func runHistory(in *input) (cs string, fail string, kinds map[string]int) {
 	}
 	var opsCoq, obsCoq []string
 	finalizedAt := map[int]int{0: 0} // round -> block finalized by the worker
+	left := false                    // a finalizeRound ran while its premise was false
 	for _, o := range in.Ops {
 		plfb := e.id(e.c.GetLatestFinalizedBlock())
 		var hand []string
@@ -304,30 +305,36 @@ func runHistory(in *input) (cs string, fail string, kinds map[string]int) {
 			done := make(chan struct{})
 			go func() { e.c.VerifFinalizeRound(ctx, r); close(done) }()
 			var accepted []int
-		loop:
 			for {
-				tctx, tcancel := context.WithTimeout(ctx, 50*time.Millisecond)
+				// wait for a hand-off or for finalizeRound to return, whichever comes first
+				tctx, tcancel := context.WithCancel(ctx)
+				go func() {
+					select {
+					case <-done:
+						tcancel()
+					case <-tctx.Done():
+					}
+				}()
 				fb, reply, ok := e.c.VerifTakeFinalizeBlock(tctx)
 				tcancel()
-				if ok {
-					err := e.worker(fb)
-					hand = append(hand, fmt.Sprintf("(%d, %s)", e.id(fb), vh.Bool(err == nil)))
-					if err == nil {
-						accepted = append(accepted, e.id(fb))
-						finalizedAt[int(fb.Round)] = e.id(fb)
-						kinds["worker-accepted"]++
-					} else {
-						kinds["worker-rejected"]++
+				if !ok {
+					break
+				}
+				err := e.worker(fb)
+				hand = append(hand, fmt.Sprintf("(%d, %s)", e.id(fb), vh.Bool(err == nil)))
+				if err == nil {
+					accepted = append(accepted, e.id(fb))
+					if old, ok := finalizedAt[int(fb.Round)]; ok && old != e.id(fb) && !left && premise {
+						set("two-finalized-blocks-in-one-round")
 					}
-					reply(err)
-					continue
+					finalizedAt[int(fb.Round)] = e.id(fb)
+					kinds["worker-accepted"]++
+				} else {
+					kinds["worker-rejected"]++
 				}
-				select {
-				case <-done:
-					break loop
-				default:
-				}
+				reply(err)
 			}
+			<-done
 			cancel()
 			lfb := e.id(e.c.GetLatestFinalizedBlock())
 			switch {
@@ -340,15 +347,16 @@ func runHistory(in *input) (cs string, fail string, kinds map[string]int) {
 			}
 			if !premise {
 				kinds["premise-false"]++
+				left = true // from here on the history is outside the property's premise
 			}
 			// the property: the new finalized block descends from the previous one, and so does every accepted block, in order
-			if premise {
+			if !left {
 				if !e.isAncestor(plfb, lfb, in) {
 					set("finalized-block-not-descendant-of-previous")
 				}
 				prev := plfb
 				for _, a := range accepted {
-					if in.Blocks[a].Parent != prev {
+					if !e.isAncestor(prev, a, in) || a == prev {
 						set("accepted-block-does-not-extend-finalized-chain")
 					}
 					prev = a
@@ -361,7 +369,7 @@ func runHistory(in *input) (cs string, fail string, kinds map[string]int) {
 		lfb := e.id(e.c.GetLatestFinalizedBlock())
 		obsCoq = append(obsCoq, fmt.Sprintf("(%d, %s)", lfb, vh.List(hand)))
 	}
-	cs = fmt.Sprintf("FcHistory %s %d 0 %s %s %s", treeCoq(in), in.Ahead, natList(in.Rounds), vh.List(opsCoq), vh.List(obsCoq))
+	cs = fmt.Sprintf("(FcHistory %s %d 0 %s %s %s)%%nat", treeCoq(in), in.Ahead, natList(in.Rounds), vh.List(opsCoq), vh.List(obsCoq))
 	return
 }
 
@@ -647,6 +655,41 @@ func main() {
 		handle(&rin, true)
 		finish()
 		return
+	}
+	// directed histories: a fork that is notarized in the same round as the main line after the
+	// main line was finalized (the premise of the property fails: finalizeRound rolls the LFB back
+	// to the common ancestor), a fork that dies, a chain longer than the walk-back limit
+	fork := []blk{{0, -1}, {1, 0}, {2, 1}, {3, 2}, {4, 3}, {5, 4}, {6, 5}, {2, 1}, {3, 7}, {4, 8}, {5, 9}, {6, 10}, {7, 6}, {8, 12}}
+	long := []blk{{0, -1}}
+	for i := 1; i <= 9; i++ {
+		long = append(long, blk{i, i - 1})
+	}
+	adds := func(ids ...int) []fop {
+		var out []fop
+		for _, i := range ids {
+			out = append(out, fop{"add", i})
+		}
+		return out
+	}
+	cat := func(xs ...[]fop) []fop {
+		var out []fop
+		for _, x := range xs {
+			out = append(out, x...)
+		}
+		return out
+	}
+	fin := func(r int) []fop { return []fop{{"finalize", r}} }
+	for _, in := range []*input{
+		{Kind: "history", Blocks: fork, Rounds: allRounds(8), Ahead: 5,
+			Ops: cat(adds(1, 2, 3, 4, 5), fin(5), adds(6, 7, 8, 9, 10, 11), fin(6), adds(12, 13), fin(8), fin(8))},
+		{Kind: "history", Blocks: fork, Rounds: allRounds(8), Ahead: 5,
+			Ops: cat(adds(1, 2, 7, 3, 8, 4, 5), fin(5), adds(6, 12), fin(7), adds(9, 10, 11), fin(7), adds(13), fin(8))},
+		{Kind: "history", Blocks: long, Rounds: allRounds(9), Ahead: 3,
+			Ops: cat(adds(1, 2, 3, 4, 5, 6, 7, 8, 9), fin(9), fin(5), fin(6), fin(7), fin(8), fin(9))},
+		{Kind: "history", Blocks: long, Rounds: allRounds(9), Ahead: 5,
+			Ops: cat(adds(1, 2, 3, 4), fin(4), fin(4), adds(5, 6), fin(6), adds(7, 8, 9), fin(9), fin(3), fin(9))},
+	} {
+		handle(in, true)
 	}
 	rnd := vh.NewRand(o.Seed)
 	for i := 0; i < o.N(250, 2500); i++ {
